@@ -120,6 +120,18 @@ def run_case(case):
         cnt["nontrivial"] = 1          # companion counts differ between a-values
     ordered = case.get('ordered', True)
     key = None
+    if case.get('group_kind') == 'a>b>c' and 'b' in rn:
+        # chain: the joint distribution of the two earlier variables must not depend on the c-side
+        bi = rn.index('b')
+        marg = {}
+        for k, p in dist.items():
+            if k and not isinstance(k[0], str):
+                marg[(k[ai], k[bi])] = marg.get((k[ai], k[bi]), Fraction(0)) + p
+        Fab = sorted(set((t[ai], t[bi]) for t in sols))
+        Db = None
+        ta = [f for f in prog['fields'] if f[0] == 'a'][0]
+        return {"cnt": cnt, "viol": viol, "key": [ta[1], ta[2], Fab, Da, 'chain-joint'],
+                "marg": {str(k): str(v) for k, v in sorted(marg.items())}, "prog": prog}
     if ordered and Da is not None:
         Dvals = sorted(v for lo, hi in Da for v in range(lo, hi + 1))
         if Dvals == Fa and len(set(marg.values())) > 1:
@@ -127,6 +139,18 @@ def run_case(case):
                 {str(k): str(v) for k, v in marg.items()}, "uniform over %r" % (Fa,))
         ta = [f for f in prog['fields'] if f[0] == 'a'][0]
         key = [ta[1], ta[2], Fa, Da, case.get('group_kind', 'single')]
+        if case.get('group_kind') == 'ab|c':
+            # both earlier variables: the joint (a,b) marginal is what must not depend on c
+            bi = rn.index('b')
+            mj = {}
+            for k, p in dist.items():
+                if k and not isinstance(k[0], str):
+                    mj[(k[ai], k[bi])] = mj.get((k[ai], k[bi]), Fraction(0)) + p
+            marg = mj
+            if len(set(mj.values())) > 1 and len(mj) == 16:
+                bad("not_uniform", "a and b are both ordered before c and unconstrained among themselves, but their joint "
+                    "distribution is %s" % ({str(k): str(v) for k, v in sorted(mj.items())},), {str(k): str(v) for k, v in mj.items()},
+                    "uniform over the 16 pairs")
     return {"cnt": cnt, "viol": viol, "key": key,
             "marg": {str(k): str(v) for k, v in sorted(marg.items())}, "prog": prog}
 
@@ -160,6 +184,31 @@ def cases_for(tier):
                                    'call': 'randomize'}, 'group_kind': 'a>b>c'})
             cases.append({'prog': {'fields': fields, 'block': [('solve_order', 'a', 'b'), ('solve_order', 'a', 'c')] + blk,
                                    'call': 'randomize'}, 'group_kind': 'a|bc'})
+    # the ordered group is not the last rand set: an independent field z with its own block created later
+    for ta, tb in [(U2, U2), (U1, U2)]:
+        fields = [fld('a', ta), fld('b', tb), fld('z', U2)]
+        for blk in blocks(ta, tb)[:8]:
+            cases.append({'prog': {'fields': fields, 'block': [('solve_order', 'a', 'b')] + blk,
+                                   'block2': [E(('bin', '<', ('f', 'z'), L(3)))], 'call': 'randomize'}})
+            cases.append({'prog': {'fields': fields, 'block': [E(('bin', '!=', ('f', 'z'), L(1)))],
+                                   'block2': [('solve_order', 'a', 'b')] + blk, 'call': 'randomize'}})
+    # one after-field with two before-fields (list form and two directives); both earlier variables
+    # must be uniform whatever the c-side looks like
+    fields = [fld('a', U2), fld('b', U2), fld('c', U2)]
+    cside = [[E(('bin', '!=', C_, B_))], [E(('bin', '>=', C_, B_))], [E(('bin', '<=', C_, A_))], [E(('bin', '==', C_, ('bin', '&', A_, B_)))], []]
+    for cs in cside:
+        cases.append({'prog': {'fields': fields, 'block': [('solve_order', ['a', 'b'], 'c')] + cs, 'call': 'randomize'}, 'group_kind': 'ab|c'})
+        cases.append({'prog': {'fields': fields, 'block': [('solve_order', 'a', 'c'), ('solve_order', 'b', 'c')] + cs, 'call': 'randomize'},
+                      'group_kind': 'ab|c'})
+    # chains a -> b -> c with the same (a,b) feasible set and different numbers of c companions
+    for ab in ([E(('bin', '<=', B_, A_))], [E(('bin', '!=', B_, A_))], []):
+        for cs in cside[:3] + [[E(('bin', '==', C_, B_))], []]:
+            if cs and 'a' in repr(cs):
+                continue
+            cases.append({'prog': {'fields': fields, 'block': [('solve_order', 'a', 'b'), ('solve_order', 'b', 'c')] + ab + cs,
+                                   'call': 'randomize'}, 'group_kind': 'a>b>c', 'cap': 40000})
+            cases.append({'prog': {'fields': fields, 'block': [('solve_order', 'a', 'b'), ('solve_order', 'b', 'c'), ('solve_order', 'a', 'c')] + ab + cs,
+                                   'call': 'randomize'}, 'group_kind': 'a>b>c', 'cap': 40000})
     return cases
 
 
